@@ -726,7 +726,21 @@ class Ev:
         if isinstance(target, ast.Name):
             self.env[target.id] = value
         elif isinstance(target, (ast.Tuple, ast.List)):
-            vals = list(value)
+            vals = self.iterate(value) if isinstance(value, Obj) else list(value)
+            stars = [i for i, t in enumerate(target.elts) if isinstance(t, ast.Starred)]
+            if len(stars) > 1:
+                raise self.bad(target, "two starred targets")
+            if stars:  # head, *tail = xs
+                i = stars[0]
+                after = len(target.elts) - i - 1
+                if len(vals) < len(target.elts) - 1:
+                    raise _ModelRaise("ValueError")
+                for t, v in zip(target.elts[:i], vals[:i]):
+                    self.assign(t, v)
+                self.assign(target.elts[i].value, list(vals[i: len(vals) - after]))  # type: ignore[attr-defined]
+                for t, v in zip(target.elts[i + 1:], vals[len(vals) - after:] if after else []):
+                    self.assign(t, v)
+                return
             if len(vals) != len(target.elts):
                 raise _ModelRaise("ValueError")
             for t, v in zip(target.elts, vals):
